@@ -401,7 +401,7 @@ func c04Handlers(e *Env, s *Sched) {
 	for b := range hl.Blocks {
 		for _, in := range b.Instrs {
 			c, ok := in.(*ssa.Call)
-			if !ok || c.Call.StaticCallee() == nil || !e.Reaches(c.Call.StaticCallee(), func(x *ssa.Function) bool { return x == s.Execute }) {
+			if !ok || c.Call.StaticCallee() == nil || !e.ReachesRepo(c.Call.StaticCallee(), func(x *ssa.Function) bool { return x == s.Execute }) {
 				continue
 			}
 			n++
